@@ -88,6 +88,9 @@ pub enum Op {
     ReadEAtt(u64),
     CrossWarp(u64, u64),
     InstOp(u64),
+    /// `op.<n>.<w>`: OpenPortal { RequireExisting } on the alpha slot of node n towards instance w; the slot IS declared in
+    /// a_write, so the only thing wrong is that a user rule emits an instance-level op
+    OpenExisting(u64, u64),
     Panic,
 }
 
@@ -134,6 +137,7 @@ pub fn parse_programs(spec: &str) -> Vec<Vec<Ins>> {
                 "re" => Op::ReadEAtt(f[1].parse().unwrap()),
                 "xw" => Op::CrossWarp(f[1].parse().unwrap(), f[2].parse().unwrap()),
                 "io" => Op::InstOp(f[1].parse().unwrap()),
+                "op" => Op::OpenExisting(f[1].parse().unwrap(), f[2].parse().unwrap()),
                 "pn" => Op::Panic,
                 x => panic!("unknown instruction {x}"),
             };
@@ -255,6 +259,12 @@ fn exec(idx: usize, view: GraphView<'_>, scope: &NodeId, delta: &mut TickDelta) 
             Op::InstOp(ow) => delta.push(WarpOp::UpsertWarpInstance {
                 instance: WarpInstance { warp_id: wid(*ow), root_node: nid(1), parent: None },
             }),
+            Op::OpenExisting(n, cw) => delta.push(WarpOp::OpenPortal {
+                key: AttachmentKey::node_alpha(NodeKey { warp_id: view.warp_id(), local_id: nid(*n) }),
+                child_warp: wid(*cw),
+                child_root: nid(1),
+                init: warp_core::PortalInit::RequireExisting,
+            }),
             Op::Panic => std::panic::panic_any("verif: scripted executor panic"),
         }
     }
@@ -296,6 +306,7 @@ pub fn honest_fp(idx: usize, w: WarpId, scope: &NodeId) -> Footprint {
             Op::ReadNode(t) | Op::ReadAdj(t) => fp.n_read.insert(nk(t.node(scope))),
             Op::HasEdge(e) => fp.e_read.insert(EdgeKey { warp_id: w, local_id: eid(*e) }),
             Op::ReadEAtt(e) => fp.a_read.insert(AttachmentKey::edge_beta(EdgeKey { warp_id: w, local_id: eid(*e) })),
+            Op::OpenExisting(n, _) => fp.a_write.insert(AttachmentKey::node_alpha(nk(nid(*n)))),
             Op::CrossWarp(..) | Op::InstOp(_) | Op::Panic => {}
         }
     }
